@@ -68,7 +68,8 @@ class Scripted:
             raise ValueError('Sample larger than population or is negative')
         v = self._n()
         self.log.append(('S', k, [self.key(x) for x in pop]))
-        r = int(v) % max(1, len(pop))
+        r = int(v)
+        if r >= len(pop): r = 0          # exec (Base/Samp.v): rotate n l = skipn n l ++ firstn n l is the identity for n >= length l
         return (pop[r:] + pop[:r])[:k]
 
     def seed(self, *a):
